@@ -122,7 +122,8 @@ theorem toC_div_error (z w : Cx ℝ) : Cx.div z w = .error .arith ↔ toC w = 0 
   · intro hw
     exact cx_div_rejects z w (by rw [toC_absSqr, hw, map_zero])
 
-/-- the total description of `Div<Complex<f64>>` at the real interpretation -/
+/-- the total description of the model's complex division at the real interpretation (the error branch on a
+    zero divisor exists only in the exact interpretation: `f64` never rejects) -/
 theorem toC_div_total (z w : Cx ℝ) :
     (toC w = 0 ∧ Cx.div z w = .error .arith) ∨
     (toC w ≠ 0 ∧ ∃ q, Cx.div z w = .ok q ∧ toC q = toC z / toC w) := by
